@@ -1,6 +1,7 @@
 /* C20: Bloom filter (Parquet SBBF) and XXH64 against independent references.
  * usage: c20 <section: xxh|sbbf> <seed> <scale> */
 #include "vdrv.h"
+#include <sys/mman.h>
 #include <carquet/carquet.h>
 #include <xxhash.h>
 #include <stdbool.h>
@@ -75,6 +76,9 @@ static void xxh(int scale) {
     for (int i = 0; i < (scale >= 2 ? 2000 : 200); i++) { size_t len = vrng_below(&R, 1u << 20); uint8_t* blk = v_exact(len); vrng_bytes(&R, blk, len); uint64_t seed = vrng_u64(&R);
         uint64_t a = carquet_xxhash64(blk, len, seed), b = XXH64(blk, len, seed); v_case(v_hash(blk, len < 256 ? len : 256, seed)); v_count("xxh_large_inputs");
         if (a != b) v_viol("xxh64:mismatch:large", "len=%zu seed=%llx", len, (unsigned long long)seed); free(blk); }
+    if (scale >= 2) { /* lengths that do not fit 32 bits (anonymous mapping, sparse content) */ static const size_t BIG[] = {((size_t)1 << 32) - 1, (size_t)1 << 32, ((size_t)1 << 32) + 5};
+        uint8_t* m = mmap(NULL, BIG[2], PROT_READ | PROT_WRITE, MAP_PRIVATE | MAP_ANONYMOUS | MAP_NORESERVE, -1, 0);
+        if (m != MAP_FAILED) { for (size_t q = 0; q < BIG[2]; q += 65537) m[q] = (uint8_t)(q * 13 + 1); for (int i = 0; i < 3; i++) { uint64_t a = carquet_xxhash64(m, BIG[i], 7), b = XXH64(m, BIG[i], 7); v_case(v_hash(&BIG[i], sizeof(size_t), 5)); v_count("xxh_inputs_of_4GiB_and_more"); if (a != b) v_viol("xxh64:mismatch:len>=4GiB", "len=%zu got=%llx want=%llx", BIG[i], (unsigned long long)a, (unsigned long long)b); } munmap(m, BIG[2]); } }
     free(pool);
     v_sample("xxh: all lengths 0..%zu x 16 alignments x seeds {0,1,2^64-1,P1,random}; random inputs up to 1 MiB; oracles libxxhash 0.8.1 and a spec-written XXH64 (must agree)", maxlen);
 }
